@@ -373,6 +373,34 @@ func VerifC30RoundTripRequest() {
 	verifrt.Assert(sr.pos == len(sr.data), "C30.request.all-written-bytes-consumed")
 }
 
+// VerifC30LargeHead: a head whose encoding is large (around and above 2^15 bytes, e.g. a long
+// error message or field) is read back identically like any other head.
+func VerifC30LargeHead() {
+	env := verifC30NewEnv()
+	ctx := context.Background()
+	sizes := []int{32767, 32768, 40000, 70000}
+	size := sizes[verifrt.NondetChoice("headsize", verifrt.Bound("largeheads", 3, 4))]
+	raw := make([]byte, size)
+	raw[0] = verifC30TagRequest
+	raw[size-1] = verifrt.NondetU8("lastbyte")
+	cw := &verifC30Writer{}
+	client := NewClientBroker(env.encs, env.enc, bytes.NewReader(nil), cw)
+	req := env.enc.request(raw)
+	verifrt.Assert(client.WriteRequestHead(ctx, req) == nil, "C30.largehead.write-head-succeeds")
+	sr := &verifC30Reader{data: cw.buf.Bytes(), open: true}
+	server := NewHandlerBroker(env.encs, nil, sr, &verifC30Writer{})
+	prefix, err := quicstream.VerifC30ReadPrefix(ctx, sr)
+	verifrt.Assert(err == nil && prefix == env.enc.prefix, "C30.largehead.prefix-read-back-identically")
+	h, err := server.ReadRequestHead(ctx)
+	verifrt.Reach("C30.largehead.head-read")
+	verifrt.Assert(err == nil, "C30.largehead.read-head-succeeds(a-written-head-is-read-back-whatever-its-size)")
+	if err != nil {
+		return
+	}
+	got, ok := h.(verifC30Request)
+	verifrt.Assert(ok && bytes.Equal(got.raw, raw), "C30.largehead.head-read-back-identically")
+}
+
 // VerifC30RoundTripResponse: the handler side (after a request head) writes response head
 // (+ body); the client reads them from an arbitrarily chunked stream, either with
 // ReadResponseHead or, where it expects a body, with ReadBody (which hands out the head).
